@@ -85,6 +85,12 @@ func parseReqID(raw json.RawMessage) (uint64, bool) {
 }
 func fmtReqID(n uint64) string { return fmt.Sprintf(`"%09d"`, n) }
 
+type quietLog struct{}
+
+func (quietLog) Errorf(string, ...interface{}) {}
+func (quietLog) Warnf(string, ...interface{})  {}
+func (quietLog) Debugf(string, ...interface{}) {}
+
 // ---------------------------------------------------------------------------------------------
 // HTTP
 // ---------------------------------------------------------------------------------------------
@@ -238,7 +244,7 @@ type httpDesc struct {
 func runHTTPCase(r *cv.Rand, st *cv.Stats, limit, nCallers int, fails *[]interface{}) (string, httpDesc) {
 	b := newHBackend()
 	defer b.srv.Close()
-	rc := rpcbackend.NewRPCClientWithOption(resty.New().SetBaseURL(b.srv.URL), rpcbackend.RPCClientOptions{MaxConcurrentRequest: int64(limit)})
+	rc := rpcbackend.NewRPCClientWithOption(resty.New().SetLogger(quietLog{}).SetBaseURL(b.srv.URL), rpcbackend.RPCClientOptions{MaxConcurrentRequest: int64(limit)})
 	results := make(chan hResult, 256)
 	type caller struct {
 		origRaw  string
@@ -494,7 +500,7 @@ func runHTTPStress(r *cv.Rand, st *cv.Stats, limit, nCallers, perCaller int, fai
 		fmt.Fprintf(w, `{"jsonrpc":"2.0","id":%s,"result":%s}`, echo, p0)
 	}))
 	defer srv.Close()
-	rc := rpcbackend.NewRPCClientWithOption(resty.New().SetBaseURL(srv.URL), rpcbackend.RPCClientOptions{MaxConcurrentRequest: int64(limit)})
+	rc := rpcbackend.NewRPCClientWithOption(resty.New().SetLogger(quietLog{}).SetBaseURL(srv.URL), rpcbackend.RPCClientOptions{MaxConcurrentRequest: int64(limit)})
 	var wg sync.WaitGroup
 	var bad int64
 	var firstBad atomic.Value
@@ -1371,8 +1377,7 @@ func runWSCase(r *cv.Rand, st *cv.Stats, nOps int, profile int) (string, wsDesc,
 			}
 		}
 	}
-	// let every goroutine of this case finish
-	cancelAll()
+	// close the client before its context is cancelled (wsclient.Close is not safe to run twice concurrently)
 	coq := fmt.Sprintf("CWs [%s]", strings.Join(d.ops, "; "))
 	return coq, wsDesc{Kind: "ws", Ops: d.dops}, d.failed
 }
